@@ -173,6 +173,16 @@ CLAIMED['C08'] = dict(
     technique="dominance on the back-edge-free CFG, definite-assignment (must-pass) after an index-shift idiom, class-table and decision-table rules over the clang-resolved AST",
     ref="DESIGN.md section 4, C08")
 
+CLAIMED['C04'] = dict(
+    text="Structural necessary conditions: the status conversion tables compose to the identity on non-basic statuses, map BASIC to dual statuses and "
+         "every dual status back to BASIC, exhaustively over both enumerations with throwing defaults; isBasisValid tests dimensions, the four "
+         "invalid status/bound combinations for rows and columns alike and the basic count, and a descriptor is validated before it is installed; the "
+         "stored-basis bookkeeping obligations of C06 (index domains, own-dimension resize, remapping over the old dimension) are re-evaluated; the "
+         "three basis queries share one three-way split and one source per arm with the slack basis as default; the bound/side status updaters are "
+         "mirror images of each other. Not a proof that the basis matrix is nonsingular or that a re-used basis reproduces the result.",
+    technique="decision-table extraction and composition, validator-shape rules, index-domain rules and a mirror-sibling comparison under a lower<->upper renaming over the clang-resolved AST",
+    ref="DESIGN.md section 4, C04")
+
 NA = {
     'C10': "every clause quantifies over run-time numbers (residuals at rounding level, singular vs. well-conditioned, agreement of multi-rhs solves); "
            "no structural clause is both checkable and necessary (DESIGN.md section 5)",
